@@ -55,18 +55,20 @@ type Contract struct {
 	Src        string
 	Ghost      []string
 	NoFrame    bool
+	IntOnly    bool // use the contract only from int-mode callers; bv-mode callers inline the body
 }
 
 type SpecFunc struct {
-	Name    string
-	Params  []*ast.Field
-	PNames  []string
-	PTypes  []ast.Expr
-	RType   ast.Expr
-	Body    ast.Expr
-	Rec     bool
+	Name     string
+	Params   []*ast.Field
+	PNames   []string
+	PTypes   []ast.Expr
+	RType    ast.Expr
+	Body     ast.Expr
+	Rec      bool
 	Uninterp bool
-	Src     string
+	Macro    bool
+	Src      string
 }
 
 type Lemma struct {
@@ -97,21 +99,21 @@ type GlobalInv struct {
 }
 
 type ContractDB struct {
-	Funcs   map[string]*Contract
-	Specs   map[string]*SpecFunc
-	Lemmas  map[string]*Lemma
+	Funcs      map[string]*Contract
+	Specs      map[string]*SpecFunc
+	Lemmas     map[string]*Lemma
 	LemmaOrder []string
-	Structs []*StructCheck
-	Globals []*GlobalInv
-	Files   []string
-	Consts  map[string]string // spec constants name -> expr text
+	Structs    []*StructCheck
+	Globals    []*GlobalInv
+	Files      []string
+	Consts     map[string]string // spec constants name -> expr text
 }
 
 func newContractDB() *ContractDB {
 	return &ContractDB{Funcs: map[string]*Contract{}, Specs: map[string]*SpecFunc{}, Lemmas: map[string]*Lemma{}, Consts: map[string]string{}}
 }
 
-var keywordRe = regexp.MustCompile(`^(package|func|requires|ensures|modifies|mode|loop|invariant|decreases|hint|unfold|use|induct|may_panic|trusted|abstracts|inline|property|spec|lemma|struct|global|ghost|noframe|const)\b`)
+var keywordRe = regexp.MustCompile(`^(package|func|requires|ensures|modifies|mode|loop|invariant|decreases|hint|unfold|use|induct|may_panic|trusted|abstracts|inline|intonly|property|spec|lemma|struct|global|ghost|noframe|const)\b`)
 
 // stripComment removes a trailing `// ...` that is outside string literals
 func stripComment(s string) string {
@@ -443,6 +445,10 @@ func (db *ContractDB) LoadFile(path, pkgPath string, trusted bool) error {
 				sf.Uninterp = true
 				r = strings.TrimSpace(r[9:])
 			}
+			if strings.HasPrefix(r, "macro ") {
+				sf.Macro = true
+				r = strings.TrimSpace(r[6:])
+			}
 			sigPart, body := r, ""
 			if i := findTop(r, " = "); i >= 0 {
 				sigPart, body = r[:i], strings.TrimSpace(r[i+3:])
@@ -583,6 +589,8 @@ func (db *ContractDB) LoadFile(path, pkgPath string, trusted bool) error {
 				cur.Inline = true
 			case "noframe":
 				cur.NoFrame = true
+			case "intonly":
+				cur.IntOnly = true
 			case "property":
 				cur.Props = append(cur.Props, strings.Fields(rest)...)
 			case "ghost":
